@@ -271,20 +271,20 @@ EXTRA = {
     "C01": " End-to-end jobs compose the real Producer with the real KafkaClient, broker clients, protocol and codec over an in-memory network against simulated brokers (reference parser/encoder) whose behaviour per broker is a symbolic choice (acknowledge, persistent error code, silent, refuse, leadership moves), with an optional symbolic stop point; what each send reported is compared with what the brokers received, applied and acknowledged. Whole-call failures may be KafkaUnavailableError; a retriable failure must be retried until the attempt limit; a send that left the queue and never fired is reported.",
     "C02": " Further jobs let the client answer synchronously (already-fired Deferred) and let the processor return an already-fired Deferred whose callback chain is paused.",
     "C03": " A byte-level job feeds the consumer fetch responses encoded by the reference encoder (plain and gzip-wrapped, both formats, compaction gaps) through the real decoder and compares every commit with the stored offset of the last processed message. Processor failures may be twisted's CancelledError; a failed start() Deferred must be justified by an unrecoverable error the scenario injected.",
-    "C04": " A wire monitor additionally encodes, with the real codec, every request object the real Coordinator/ConsumerGroup/Consumer hand to the client on every explored path of the group protocol (error replies, evictions, re-joins) and parses it with the reference parser, which rejects null in non-nullable STRING fields. The version-discovery scenario checks that the correlation id in the header is the id the request is registered under, also on retries.",
+    "C04": " A wire monitor additionally encodes, with the real codec, every request object the real Coordinator/ConsumerGroup/Consumer hand to the client on every explored path of the group protocol (error replies, evictions, re-joins) and parses it with the reference parser, which rejects null in non-nullable STRING fields. The version-discovery scenario checks that the correlation id in the header is the id the request is registered under, also on retries, and that an error reply that still lists versions counts as failed discovery.",
     "C05": " One obligation decodes a byte-identical compressed wrapper twice at different log offsets.",
-    "C06": " Re-entrancy is part of the script: response callbacks may close the client or re-issue the id, failure handlers may cancel another outstanding request; ids of requests cancelled after they were written are re-used.",
+    "C06": " Re-entrancy is part of the script: response callbacks may close the client or re-issue the id, failure handlers may cancel another outstanding request; ids of requests cancelled after they were written are re-used; callbacks of requests that expect no reply may re-enter as well.",
     "C07": " Bootstrap hosts may refuse, accept and stay silent (time-out) or accept and drop.",
-    "C08": " Further jobs: acks=0 produce under connection-level faults, and the real Producer on the real client through a whole-cluster outage (producing must resume within the producer's retry budget).",
-    "C09": " Jobs in which the client answers synchronously (already-fired Deferred) exercise the producer's handlers re-entrantly; a job with an unroutable second topic and cancellation; retriable whole-call failures (incl. KafkaUnavailableError) must be retried until the attempt limit.",
-    "C10": " The retry policy's unit is a symbolic positive real (exact virtual time), so delays are compared exactly with whatever the policy returned; endpoints may fail or succeed connect() before it returns.",
+    "C08": " Further jobs: acks=0 produce under connection-level faults, and the real Producer on the real client through a whole-cluster outage (producing must resume within the producer's retry budget); a batch spanning two topics whose leaders both moved (fail_on_error=False): every erroring topic must be invalidated.",
+    "C09": " Jobs in which the client answers synchronously (already-fired Deferred) exercise the producer's handlers re-entrantly; a job with an unroutable second topic and cancellation; retriable whole-call failures (incl. KafkaUnavailableError) must be retried until the attempt limit; jobs in which the application resubmits from a result handler.",
+    "C10": " The retry policy's unit is a symbolic positive real (exact virtual time), so delays are compared exactly with whatever the policy returned; endpoints may fail or succeed connect() before it returns; the broker may answer requests that were cancelled after they were written.",
     "C11": " Further jobs: requests that expect no reply, and an endpoint that connects synchronously.",
     "C12": " The buffer-growth scenario (engine B, symbolic buffer / maximum / message sizes) shared with C14 decides the clause that a truncated final message makes the consumer enlarge its buffer.",
-    "C13": " Further states: the outstanding offset lookup or fetch is the last attempt the retry limit allows; commit back-off with further progress; commit back-off with two waiters. commit() Deferreds obtained before stop must have fired; a failed start() Deferred must be justified by an injected unrecoverable error; a restarted consumer must be able to commit.",
-    "C14": " The retry family also starts from the committed position (offset / nothing committed as a symbolic answer) and has a 'message larger than the buffer' success outcome.",
+    "C13": " Further states: the outstanding offset lookup or fetch is the last attempt the retry limit allows; commit back-off with further progress; commit back-off with two waiters. commit() Deferreds obtained before stop must have fired; a failed start() Deferred must be justified by an injected unrecoverable error; a restarted consumer must be able to commit; every Deferred the processor returned must be fired or cancelled once stop() has returned. A subset of the states is also run with a client that reports a cancelled in-flight request the way the real KafkaClient does (FailedPayloadsError carrying CancelledError).",
+    "C14": " The retry family also starts from the committed position (offset / nothing committed as a symbolic answer) and has a 'message larger than the buffer' success outcome; a fetch may fail because a third party cancelled it.",
     "C15": " An engine-B scenario runs the real Coordinator and _ConsumerProtocol on the real KafkaClient metadata path (down to the bytes, against simulated brokers) while the cluster's partition map changes between generations and a topic may be transiently in error; each generation's SyncGroup is decoded by the reference parser and compared with the partitions the cluster has at that time.",
-    "C16": " Coordinator lookups may time out (long back-off); jobs in which the member is assigned partitions of two topics; no commit of the previous generation may be abandoned unanswered before a graceful re-join.",
-    "C17": " One job runs the leader's partition lookup on the real client with a transient topic-level error (scenario shared with C15).",
+    "C16": " Coordinator lookups may time out (long back-off); jobs in which the member is assigned partitions of two topics; no commit of the previous generation may be abandoned unanswered before a graceful re-join; one job lets a new consumer fail synchronously inside on_join_complete.",
+    "C17": " One job runs the leader's partition lookup on the real client with a transient topic-level error (scenario shared with C15); one job uses a retry back-off of zero.",
     "C18": " Round-robin obligations include lists changed in place by the caller; an engine-B job runs the real Producer with a recording RoundRobinPartitioner through errors, retries and metadata reloads and checks that the recorded selections walk the cycle.",
     "C19": " Re-entrancy jobs: the client may answer synchronously and the application may submit a send from a result handler, i.e. during the producer's own dispatch. The threshold counters are compared with the sends the application still has outstanding; a cancelled send must have left the queue.",
     "C20": " Further states: back-off after an endpoint whose connect() failed synchronously; a refresh closing every live broker; a broker-unaware operation in flight on the only broker. After close() every kind of operation is tried and must fail at once.",
